@@ -1,6 +1,7 @@
 package main
 
 import (
+	"time"
 	"bytes"
 	"encoding/json"
 	"fmt"
@@ -1260,4 +1261,48 @@ func runC19(prop string, res *Result, pool *DrvPool, r *Rng) {
 	runC19a(res, pool, r.Fork())
 	runC19bc(res, pool, r.Fork())
 	runC19c(prop, res, pool, r.Fork())
+	runC19Rebuild(res, r.Fork())
+}
+
+
+// runC19Rebuild: the sources next to a dump are what the dump's binary was built from NOW.  A
+// source file is analysed, then replaced by another build's version of the same length and with
+// the same modification time (normalised timestamps: tar, containers, rsync -t), then a dump of the
+// new build is analysed in the same process: the typed rendering must follow the file on disk.
+func runC19Rebuild(res *Result, r *Rng) {
+	dir, err := os.MkdirTemp("", "verif-c19-rebuild-")
+	if err != nil {
+		return
+	}
+	defer os.RemoveAll(dir)
+	os.MkdirAll(filepath.Join(dir, "src", "app"), 0o755)
+	path := filepath.Join(dir, "src", "app", "main.go")
+	mk := func(t1, t2 string) string {
+		return "package main\n\nfunc f(a " + t1 + ", b " + t2 + ") {\n\tpanic(1)\n}\n\nfunc main() {\n\tf(1, 2)\n}\n"
+	}
+	dump := "goroutine 1 [running]:\nmain.f(0x7, 0xfffffffb)\n\t" + path + ":4 +0x1d\nmain.main()\n\t" + path + ":8 +0x2\n\n"
+	opts := &stack.Opts{LocalGOPATHs: []string{dir}, GuessPaths: true, AnalyzeSources: true}
+	render := func() string {
+		s, _, _ := stack.ScanSnapshot(strings.NewReader(dump), io.Discard, opts)
+		if s == nil || len(s.Goroutines) == 0 || len(s.Goroutines[0].Stack.Calls) == 0 {
+			return "<no snapshot>"
+		}
+		return strings.Join(s.Goroutines[0].Stack.Calls[0].Args.Processed, ", ")
+	}
+	stamp := time.Unix(1700000000, 0)
+	builds := [][3]string{{"int32", "uint32", "7, 4294967291"}, {"uint32", "int32", "7, -5"}, {"uint8", "uint32", "7, 4294967291"}, {"int32", "uint32", "7, 4294967291"}, {"uint32", "int32", "7, -5"}}
+	for round := 0; round < countN(res.Tier, 4, 40); round++ {
+		for k, b := range builds {
+			src := mk(b[0], b[1])
+			// same length for the two 13-byte spellings; the third differs in length on purpose
+			os.WriteFile(path, []byte(src), 0o644)
+			os.Chtimes(path, stamp, stamp)
+			got := render()
+			res.Count("rebuild-steps")
+			if got != b[2] {
+				res.Violation(Finding{Stream: "rebuild", What: fmt.Sprintf("step %d of a sequence of builds in one process: the file on disk declares f(a %s, b %s) and the dump passes (0x7, 0xfffffffb): rendered %q, want %q (the file was replaced by a same-length version with the same modification time)", k, b[0], b[1], got, b[2]), Op: map[string]interface{}{"dump": dump, "source": src, "step": k}})
+				return
+			}
+		}
+	}
 }
